@@ -20,7 +20,7 @@ from sims.adv_run import run_real, script_line, cmd_hash
 LEAN_TARGETS = ["NfcVerif.Props.C08", "drv_c08"]
 
 THEOREMS = [
-    "NfcVerif.C08.t4_read_safe", "NfcVerif.C08.t12_result_safe_partial",
+    "NfcVerif.C08.t4_read_safe",
     "NfcVerif.C08.isodep_wtx_endless_counterexample",
 ]
 
@@ -272,6 +272,23 @@ def reference(rsp, kind):
     return "n/a"
 
 
+def stored_inside(tag, base):
+    """Type 1/2 only: do the length field and the value of the message TLV the reader found lie inside the
+    data area (placed around the reader's skip bytes)?  Used to tell the capacity formula's own
+    shortfall (257 free bytes and a 254 byte message with a one byte length field; length field on a reserved
+    byte) from a message that reaches beyond the area."""
+    try:
+        nd = tag._ndef
+        if nd is None or base not in ("t1", "t2"):
+            return False
+        mem, off, skip = nd._tag_memory, nd._ndef_tlv_offset, nd._skip_bytes
+        end = (mem[10] + 1) * 8 if base == "t1" else mem[14] * 8 + 16
+        head = off + (4 if mem[off + 1] == 0xFF else 2)
+        return head <= end and nd.length <= len(set(range(head, end)) - skip)
+    except Exception:
+        return False
+
+
 class Runner(object):
     def __init__(self, ck):
         self.ck = ck
@@ -299,7 +316,12 @@ class Runner(object):
         else:
             if r.ndef is not None or r.length is not None:
                 if r.length is not None and r.length > r.capacity:
-                    ck.fail("%s-length-exceeds-capacity" % base, "%s: ndef.length %d > ndef.capacity %d" % (kind, r.length, r.capacity), d)
+                    if stored_inside(r.tag, base):
+                        # the message IS stored completely inside the data area: get_capacity under-reports
+                        ck.fail("t12-capacity-below-stored-length", "%s: ndef.length %d > ndef.capacity %d although the message lies "
+                                "inside the data area" % (kind, r.length, r.capacity), d)
+                    else:
+                        ck.fail("%s-length-exceeds-capacity" % base, "%s: ndef.length %d > ndef.capacity %d" % (kind, r.length, r.capacity), d)
                 if r.octets is not None and len(r.octets) != r.length:
                     ck.fail("%s-length-octets-mismatch" % base, "%s: length %d, %d octets" % (kind, r.length, len(r.octets)), d)
             ref = reference(rsp, base) if stop_after is None and not garble else "n/a"
@@ -426,6 +448,10 @@ def corpus(R):
     c(A.T2Adv(t2img(6, bytes(47) + b"\x03")), "t2:NDEF TLV type byte is the last byte of the area (capacity -1)")
     c(A.T2Adv(t2img(6, b"\x03\xff\x00\x2e" + bytes(range(44)))), "t2:3-byte length field, length 46 = capacity, value ends 2 bytes behind the area")
     c(A.T2Adv(t2img(6, b"\x03\xff\x00\x2c" + bytes(range(44)))), "t2:3-byte length field, length 44 fits exactly")
+    c(A.T2Adv(t2img(33, bytes(7) + b"\x03\xfe" + bytes(range(254)) + b"\xfe")),
+      "t2:257 free bytes from the message TLV, 254 octets stored with a one byte length field (capacity 253)")
+    c(A.T1Adv(b"\x12\x4c", t1img(0x29, b"\x01\x03\xf0\x1d\x04" + bytes(34) + b"\x03\xfe" + bytes(range(254)) * 2, total=512)),
+      "t1:C01 witness: dynamic tag, lock bytes 240..243, message TLV at 51 with 254 octets ends at 334 < 336")
     c(A.T1Adv(b"\x11\x48", t1img(0x0E, b"\x03\xff\x00\x5a" + bytes(range(88)))), "t1:3-byte length field, length 90 = capacity")
     c(A.T2Adv(t2img(6, b"\x01\x03\xf0\x00\x0f" + b"\x03\x00")), "t2:lock TLV pointing at page 15 * 2^15")
     c(A.T2Adv(t2img(255, b""), sectors="no"), "t2:2040 byte area of NULL TLVs, no sector select")
